@@ -100,6 +100,10 @@ SELFTEST_N = {"quick": 10, "thorough": 60}
 # recorded as a note (a genuine hang would show up as a pile of such notes).
 RUN_TIMEOUT_S = 25
 TIMEOUT_IS_VIOLATION = False
+# (nor about the number of random draws: 'randkcnf -p 2 99999999999999999999 6'
+# plants an assignment to 10**20 variables, one draw each, before it runs
+# out of memory and says so)
+DRAW_BUDGET_IS_VIOLATION = False
 
 HELP_FLAGS = ("-h", "--help", "-V", "--version", "--tutorial",
               "--help-graph", "--help-bipartite", "--help-dag")
